@@ -76,9 +76,14 @@ def alphabet(text: str) -> list[str]:
         toks.append("x")
     if re.search(r"\bNUMBER\b", text):
         toks.append("1")
+    extra = []
+    if re.search(r"\bSTRING\b", text):
+        extra.append("'s'")
+    if re.search(r"\bOP\b", text):
+        extra.append("@")
     if not toks:
         toks = ["x"]
-    return toks[:6] + ["zz"]           # plus one foreign token
+    return toks[:6] + extra + ["zz"]           # plus one foreign token
 
 
 def inputs_upto(alpha: list[str], n: int, cap: int = 400) -> list[str]:
